@@ -14,6 +14,8 @@ Decided, on the public anchor TimeZoneRef::find_local_time_type:
   LOOKUP    DateTime::from_timespec(t, n, zone): the zone is consulted exactly once, at exactly t, and every Ok result
             carries exactly the local time type that lookup returned (a path around the lookup would make it a join of
             two values), with t and n stored unchanged.
+  DELEGATE  TimeZone::find_local_time_type (owned zone) performs exactly one lookup on its borrowed view, at its own
+            argument, and returns that lookup's value unchanged on every path.
   SCALE     (E-SCALE, shared with C12) the key compared with table times is on the leap-count scale, the instant given to
             the trailing rule is on the UTC scale.
 With the contract of the binary search (Ok(x): table[x] = key; Err(x): table[x-1] < key < table[x]) and strictly
@@ -281,6 +283,24 @@ def check(run, tier):
         else:
             run.obligation(False)
             run.finding("ANCHOR-MISSING", "%s|%s" % (cfg, FT), "DateTime::from_timespec / from_timespec_and_local not found")
+        # ---- DELEGATE: the owned zone answers exactly what its borrowed view answers
+        OWN = "tz::timezone::TimeZone::find_local_time_type"
+        if OWN in insts:
+            seen2 = {"args": [], "ret": None}
+
+            def hook2(ev, **kw):
+                if ev == "enter" and kw["inst"]["name"] == ROOT:
+                    seen2["args"].append(kw["args"])
+                elif ev == "leave" and kw["inst"]["name"] == ROOT:
+                    seen2["ret"] = kw["ret"]
+
+            I2 = Exec(f, M, INVARIANTS)
+            I2.hooks.append(hook2)
+            R2, frame2, args2 = I2.analyse_root(insts[OWN])
+            fin2 = R2.cells.get((frame2, 0)) if R2 is not None else None
+            q0 = args2[1].sym if len(args2) > 1 and isinstance(args2[1], Scalar) else None
+            okd = len(seen2["args"]) == 1 and isinstance(seen2["args"][0][1], Scalar) and seen2["args"][0][1].sym == q0 and seen2["ret"] is not None and fin2 is not None and same_shape(fin2, seen2["ret"])
+            verdict("DELEGATE", "owned zone", bool(okd), "TimeZone::find_local_time_type must return exactly what the borrowed zone's lookup returns for the same instant (one lookup, no other path):", {"lookups": len(seen2["args"])})
         # ---- SCALE (shared engine)
         S = c12.tz_seeds(f, run, cfg)
         if S is not None:
